@@ -207,10 +207,33 @@ def finish(prop, tier, seed, k1, tres, t0, extra_errors=(), partial=False):
     proved = refuted = undecided = 0
     violations, known_hits, undecided_list = [], [], []
     nbounded = 0
+    # A refuted K1 obligation is reported as a violation when its counter-model replays on the real code, or when it is a
+    # statement about the function's behaviour (postcondition, raises clause, frame, callee precondition) that held on the
+    # unchanged tree.  When an INDUCTIVENESS obligation of the same function is refuted as well (inv-init / inv-pres / variant /
+    # step / loop-exit / loop-break) and no counter-model of the function replays, the loop annotations no longer fit the code
+    # (a rewritten loop, a renamed counter): the models are states the loop may never reach, every clause proved from the
+    # annotations is unreliable, and the function is UNDECIDED (exit 2), not violated.  The bounded differentials of the
+    # property decide such a tree with a failing input.
+    import re as _re
+    _ind = _re.compile(r':(inv-init|inv-pres|variant|step|loop-exit|loop-break)@')
+    per_fn = {}
+    for name, a in agg.items():
+        if not a['bounded'] and 'refuted' in a['verdicts']:
+            per_fn.setdefault(a['source'], []).append(a)
+    demoted = set()
+    for src, obs_ in per_fn.items():
+        confirmed = any((i.get('native') or {}).get('confirmed') for a in obs_ for i in a['instances'] if i['verdict'] == 'refuted')
+        if not confirmed and any(_ind.search(a['name']) for a in obs_):
+            for a in obs_:
+                demoted.add(a['name'])
     for name, a in sorted(agg.items()):
         solver_time += a['time']
         vs = a['verdicts']
-        if 'refuted' in vs:
+        if name in demoted:
+            a['verdict'] = 'undecided'
+            a['reason'] = ('loop annotations of %s are no longer inductive for the current source and no counter-model replays on the '
+                           'real code: undecided, not violated' % a['source'])
+        elif 'refuted' in vs:
             a['verdict'] = 'refuted'
         elif 'undecided' in vs:
             a['verdict'] = 'undecided'
